@@ -1,5 +1,7 @@
 from nucsvc.propspec import propagator
 
+HYP = 'inbox(t, old(domains), n) and sum(j, 0, n, parameters[j] * t[j]) == parameters[n]'
+
 define("minterm(a, D, j)", "ite(a[j] > 0, a[j] * D[j, MIN], a[j] * D[j, MAX])")
 define("maxterm(a, D, j)", "ite(a[j] > 0, a[j] * D[j, MAX], a[j] * D[j, MIN])")
 
@@ -48,7 +50,13 @@ propagator(REG, "nucs/propagators/affine_eq_propagator.py::compute_domains_affin
     loops={1: L1, 2: dict(index="i", fingerprint="for enumerate(parameters[:-1])", invariant=LIN_P1 + [
         ("P2.tuple", "implies(inbox(t, old(domains), n) and sum(j, 0, n, parameters[j] * t[j]) == parameters[n], forall(k, 0, i, domains[k, MIN] <= t[k] and t[k] <= domains[k, MAX]))"),
     ], hints=["lemma_sum_le(j, 0, n, minterm(parameters, old(domains), j), parameters[j] * t[j])",
-              "lemma_sum_le(j, 0, n, parameters[j] * t[j], maxterm(parameters, old(domains), j))"]),
+              "lemma_sum_le(j, 0, n, parameters[j] * t[j], maxterm(parameters, old(domains), j))"],
+       scoped_hints=True, cuts=[
+        ("P2.gap_min", "implies(inbox(t, old(domains), n) and sum(j, 0, n, parameters[j] * t[j]) == parameters[n], parameters[i] * t[i] - minterm(parameters, old(domains), i) <= domain_sum_max)"),
+        ("P2.gap_max", "implies(inbox(t, old(domains), n) and sum(j, 0, n, parameters[j] * t[j]) == parameters[n], maxterm(parameters, old(domains), i) - parameters[i] * t[i] <= 0 - domain_sum_min)"),
+        ("P2.quot_pos", f"implies(({HYP}) and c > 0, old(domains)[i, MAX] - t[i] <= domain_sum_min // -c and t[i] - old(domains)[i, MIN] <= domain_sum_max // c)"),
+        ("P2.quot_neg", f"implies(({HYP}) and c < 0, old(domains)[i, MAX] - t[i] <= -domain_sum_max // c and t[i] - old(domains)[i, MIN] <= -domain_sum_min // -c)"),
+       ]),
            3: L3},
     hints=["lemma_sum_le(j, 0, n, minterm(parameters, old(domains), j), parameters[j] * t[j])",
            "lemma_sum_le(j, 0, n, parameters[j] * t[j], maxterm(parameters, old(domains), j))",
